@@ -78,6 +78,8 @@ def execute(c):
                 if k != "type":
                     t.ndata[k] = column(c, j, k, 1)         # the tree holds float64 columns (as after a user-supplied affine matrix)
         snap = lib.snapshot(t)
+        if lib.vid(c) % 5 == 4:
+            lib.scribble(sort_tree(t))          # an earlier result of the same call was overwritten in place by its owner
         r = sort_tree(t)
         mp, rids, rpids, rcols = proj_tree(r, enc)
         s = is_sorted((r.id(), r.pid()))
@@ -88,6 +90,8 @@ def execute(c):
         df = mk_df(c)
         before = df.copy()
         if op == "sort_table":
+            if lib.vid(c) % 5 == 4:
+                lib.scribble(sort_nodes(df))
             if lib.vid(c) % 2:
                 r = sort_nodes(df)
             else:
